@@ -150,6 +150,28 @@ def _observe_likelihood(case):
         if case.get('reinit' + tag):
             e2.change_init_values(dict(case['reinit' + tag]))
             one['after_reinit'] = np.asarray(e2.get_value_c(database=db2, betas=None, prepare_ids=True), dtype=float).tolist()
+            # the same values given with fix_betas to a fresh formula (already fixed parameters included)
+            e5 = build.Builder([], overloads=case['overloads']).build(root)
+            e5.fix_betas(dict(case['reinit' + tag]))
+            one['after_fix'] = np.asarray(e5.get_value_c(database=build.build_database(case['table']), betas=None, prepare_ids=True),
+                                          dtype=float).tolist()
+        # a BIOGEME object given new starting values for SOME of its free parameters, then random ones
+        e3 = build.Builder([], overloads=case['overloads']).build(root)
+        the3 = bio.BIOGEME(build.build_database(case['table']), e3, parameters=params)
+        the3.save_iterations = the3.generate_html = the3.generate_pickle = False
+        pf = {n_: v_ for n_, v_ in (partial or {}).items() if n_ in names}
+        if pf:
+            the3.change_init_values(dict(pf))
+            one['partial_free'] = pf
+            one['free_values_after_change'] = [float(v_) for v_ in the3.id_manager.free_betas_values]
+            try:
+                one['init_like_after_change'] = float(the3.calculate_init_likelihood())
+            except Exception as exc_:  # outside the domain at these values: not judged
+                one['init_like_after_change'] = None
+        np.random.seed(case['shuffle_seed'] % 1000)
+        the3.set_random_init_values(default_bound=100.0)
+        one['random_init'] = dict(names=list(the3.free_beta_names), vector=[float(v_) for v_ in the3.id_manager.free_betas_values],
+                                  by_name={k_: float(v_) for k_, v_ in e3.get_beta_values().items()})
         res[tag] = one
     return res
 
@@ -256,6 +278,40 @@ def judge_likelihood(case) -> Outcome:
                     out.fail('change_init_values:not_used', f'row {i}: after an evaluation with a dictionary and then change_init_values('
                                                             f'{reinit}) the formula evaluates to {a!r}; with these values it is {ev.v!r}' + where)
                     return out
+        if refs_reinit is not None and 'after_fix' in obs:
+            for i, (a, ev) in enumerate(zip(obs['after_fix'], refs_reinit)):
+                if not abs(a - ev.v) <= tol(ev) + 1e-9 * (1 + abs(ev.v)):
+                    out.fail('fix_betas:not_used', f'row {i}: after fix_betas({reinit}) the formula evaluates to {a!r}; with these values it '
+                                                   f'is {ev.v!r}' + where)
+                    return out
+        back = {v_: k_ for k_, v_ in mapping.items()}
+        orig = (lambda nm_: nm_) if tagX == 'A' else (lambda nm_: back[nm_])
+        if 'partial_free' in obs:
+            want_vec = [obs['partial_free'].get(nm_, betas[orig(nm_)][2]) for nm_ in obs['names']]
+            if obs['free_values_after_change'] != want_vec:
+                out.fail('biogeme_change_init_values:vector', f'after BIOGEME.change_init_values({obs["partial_free"]}) the starting vector for '
+                                                              f'{obs["names"]} is {obs["free_values_after_change"]}, expected {want_vec}' + where)
+                return out
+            if obs['init_like_after_change'] is not None:
+                try:
+                    pt = dict({n_: b_[2] for n_, b_ in betas.items()}, **{orig(k_): v_ for k_, v_ in obs['partial_free'].items()})
+                    rr = reference_values(case, root, betas=pt)
+                    want_l = sum(ev.v for ev in rr)
+                    if not abs(obs['init_like_after_change'] - want_l) <= sum(tol(ev) for ev in rr) + 1e-9 * (1 + sum(abs(ev.v) for ev in rr)):
+                        out.fail('biogeme_change_init_values:init_likelihood', f'after BIOGEME.change_init_values({obs["partial_free"]}) the initial log '
+                                                                               f'likelihood is {obs["init_like_after_change"]!r}, expected {want_l!r}' + where)
+                        return out
+                except (refsem.IllPosed, OverflowError):
+                    pass
+        ri = obs['random_init']
+        for pos_, nm_ in enumerate(ri['names']):
+            b_ = betas[orig(nm_)]
+            lo_, hi_ = (-100.0 if b_[3] is None else b_[3]), (100.0 if b_[4] is None else b_[4])
+            v_ = ri['vector'][pos_]
+            if not (lo_ <= v_ <= hi_) or ri['by_name'].get(nm_) != v_:
+                out.fail('set_random_init_values', f'random starting value of {nm_!r}: {v_!r} in the vector, {ri["by_name"].get(nm_)!r} in the formula; '
+                                                   f'its bounds are [{lo_}, {hi_}]' + where)
+                return out
         for n in free:
             nm = n if tagX == 'A' else mapping[n]
             if obs['beta_values_after'].get(nm) != betas[n][2]:
